@@ -73,6 +73,10 @@ pub(crate) struct MemTable {
 	/// WAL number that was current when this memtable started receiving writes.
 	/// Used to determine which WALs can be safely deleted after flush.
 	wal_number: AtomicU64,
+	/// Arena capacity, and the space claimed by batches that are being inserted
+	/// right now (see `claim_space`).
+	arena_capacity: u64,
+	claimed: AtomicU64,
 }
 
 impl Default for MemTable {
@@ -90,22 +94,67 @@ impl MemTable {
 			skiplist,
 			latest_seq_num: AtomicU64::new(0),
 			wal_number: AtomicU64::new(0),
+			arena_capacity: arena_capacity.min(arena::MAX_ARENA_SIZE) as u64,
+			claimed: AtomicU64::new(0),
 		}
 	}
 
-	/// Whether `batch` is guaranteed to fit a fresh memtable of `arena_capacity`
-	/// bytes. A batch that does not can never be applied - not by the commit
-	/// that carries it and not by replaying the commit log - so it has to be
-	/// refused before anything of it is written.
-	pub(crate) fn fits_when_empty(batch: &Batch, arena_capacity: usize) -> bool {
-		let capacity = arena_capacity.min(arena::MAX_ARENA_SIZE);
-		let needed = batch.entries.iter().fold(skiplist::EMPTY_ARENA_SIZE, |acc, e| {
-			acc.saturating_add(skiplist::max_entry_arena_size(
+	/// Tower heights for the entries of `batch`, drawn with the skiplist's
+	/// distribution.
+	pub(crate) fn draw_heights(batch: &Batch) -> Vec<u8> {
+		batch.entries.iter().map(|_| skiplist::random_height() as u8).collect()
+	}
+
+	/// Arena space `batch` needs when its entries get the towers `heights`.
+	fn arena_need(batch: &Batch, heights: &[u8]) -> u64 {
+		batch.entries.iter().zip(heights).fold(skiplist::TOWER_SLACK as u64, |acc, (e, h)| {
+			acc.saturating_add(skiplist::entry_arena_size(
+				*h as u32,
 				e.key.len(),
 				e.value.as_ref().map_or(0, |v| v.len()),
-			))
-		});
-		needed <= capacity
+			) as u64)
+		})
+	}
+
+	/// Claims room for the whole of `batch`, or fails with `ArenaFull` before a
+	/// single entry is inserted. A batch must go into a memtable entirely or not
+	/// at all: a memtable that holds the first entries of a batch which then
+	/// ran out of space is rotated and flushed like any other, and those entries
+	/// would survive a crash without the rest of their transaction.
+	///
+	/// Several committers insert concurrently, so the check accounts for what
+	/// the others have claimed but not yet allocated. Claims are only held while
+	/// a batch is being inserted; the memtable merely counts as full a little
+	/// earlier under concurrency.
+	fn claim_space(&self, need: u64) -> Result<()> {
+		loop {
+			let claimed = self.claimed.load(Ordering::Acquire);
+			let used = self.skiplist.size() as u64;
+			if used.saturating_add(claimed).saturating_add(need) > self.arena_capacity {
+				return Err(crate::Error::ArenaFull);
+			}
+			if self
+				.claimed
+				.compare_exchange(claimed, claimed + need, Ordering::AcqRel, Ordering::Acquire)
+				.is_ok()
+			{
+				return Ok(());
+			}
+		}
+	}
+
+	/// Arena capacity a fresh memtable needs to take `batch` (whose tower
+	/// heights have been drawn).
+	pub(crate) fn capacity_needed_when_empty(batch: &Batch) -> u64 {
+		(skiplist::EMPTY_ARENA_SIZE as u64).saturating_add(Self::arena_need(batch, &batch.heights))
+	}
+
+	/// Whether `batch` (with drawn tower heights) fits a fresh memtable of
+	/// `arena_capacity` bytes. A batch that does not can never be applied, so it
+	/// has to be refused before anything of it is written.
+	pub(crate) fn fits_when_empty(batch: &Batch, arena_capacity: usize) -> bool {
+		debug_assert_eq!(batch.heights.len(), batch.entries.len());
+		Self::capacity_needed_when_empty(batch) <= arena_capacity.min(arena::MAX_ARENA_SIZE) as u64
 	}
 
 	/// Sets the WAL number associated with this memtable.
@@ -172,20 +221,31 @@ impl MemTable {
 	/// * `starting_seq_num` - The starting sequence number for this batch (records get consecutive
 	///   numbers)
 	pub(crate) fn add(&self, batch: &Batch) -> Result<()> {
-		let highest_seq_num = self.apply_batch_to_memtable(batch)?;
+		let drawn;
+		let heights: &[u8] = if batch.heights.len() == batch.entries.len() {
+			&batch.heights
+		} else {
+			drawn = Self::draw_heights(batch);
+			&drawn
+		};
+		let claim = Self::arena_need(batch, heights);
+		self.claim_space(claim)?;
+		let result = self.apply_batch_to_memtable(batch, heights);
+		self.claimed.fetch_sub(claim, Ordering::AcqRel);
+		let highest_seq_num = result?;
 		self.update_latest_sequence_number(highest_seq_num);
 		Ok(())
 	}
 
 	/// Applies the batch of operations to the in-memory table (memtable).
 	/// Returns (total_record_size, highest_seq_num_used).
-	fn apply_batch_to_memtable(&self, batch: &Batch) -> Result<u64> {
+	fn apply_batch_to_memtable(&self, batch: &Batch, heights: &[u8]) -> Result<u64> {
 		// Pre-allocate empty value Bytes for delete operations to avoid repeated
 		// allocations
 		let empty_val = Value::new();
 
 		// Process entries with pre-encoded ValueLocations
-		for (_i, entry, current_seq_num, timestamp) in batch.entries_with_seq_nums()? {
+		for (i, entry, current_seq_num, timestamp) in batch.entries_with_seq_nums()? {
 			let ikey = InternalKey::new(entry.key.clone(), current_seq_num, entry.kind, timestamp);
 
 			// Use the value directly (cheap Bytes clone), or reuse empty value for deletes
@@ -196,7 +256,7 @@ impl MemTable {
 				empty_val.clone()
 			};
 
-			self.insert_into_memtable(&ikey, &val)?;
+			self.insert_into_memtable(&ikey, &val, heights[i] as u32)?;
 		}
 
 		// Get the highest sequence number used from the batch
@@ -207,10 +267,10 @@ impl MemTable {
 
 	/// Inserts a key-value pair into the memtable.
 	/// Returns Err(ArenaFull) if there's not enough space.
-	fn insert_into_memtable(&self, key: &InternalKey, value: &Value) -> Result<()> {
+	fn insert_into_memtable(&self, key: &InternalKey, value: &Value, height: u32) -> Result<()> {
 		let trailer = (key.seq_num() << 8) | (key.kind() as u64);
 
-		match self.skiplist.add(&key.user_key, trailer, key.timestamp, value) {
+		match self.skiplist.add_with_height(&key.user_key, trailer, key.timestamp, value, height) {
 			Ok(()) => Ok(()),
 			Err(SkiplistError::RecordExists) => Ok(()), // Duplicate is not an error in memtable
 			Err(SkiplistError::ArenaFull) => Err(crate::Error::ArenaFull),
